@@ -1,7 +1,7 @@
 #!/bin/bash
 # C02: a file replaced after the scan by rename (mv keeps the old mtime, only ctime changes)
 # is not seen as modified: `fclones remove` destroys the last copy of the original content.
-CHECKOUT=${1:-/tmp/hunt/n2}
+CHECKOUT=${1:-/repo}
 F=$CHECKOUT/target/debug/fclones
 D=$(mktemp -d); trap 'rm -rf "$D"' EXIT
 cd "$D"; mkdir a b
